@@ -72,6 +72,61 @@ def swarm_config(rng, prop, tier, faults):
     }
 
 
+def make_mesh_op(rng, cls, maxcells, nonuniform, out):
+    """A mesh op for `cls` drawn from `rng` (shared by the online generator and
+    the stratified plans of strat.py)."""
+    def r(lo, hi, nd=3):
+        return round(rng.uniform(lo, hi), nd)
+    nd = A.GRID_NDIM[cls]
+    mx = maxcells
+    N = [rng.randint(1 if rng.random() < 0.1 else 2, mx) for _ in range(nd)]
+    if nd == 3:
+        N = [min(n, 3) for n in N]
+    a = {"cls": cls}
+    radial = cls in A.RADIAL
+    if nonuniform and rng.random() < 0.7:
+        faces = []
+        for ax, n in enumerate(N):
+            lo = 0.0
+            hi = r(0.8, 2.5, 2)
+            ang2pi = (cls in ("PolarGrid2D", "CylindricalGrid3D") and ax == 1) or \
+                     (cls == "SphericalGrid3D" and ax == 2)
+            angpi = cls == "SphericalGrid3D" and ax == 1
+            if ax == 0 and radial and rng.random() < 0.5:
+                lo = r(0.2, 1.0, 2)          # offset radial origin
+            if ang2pi:
+                lo = r(0.0, 1.0, 2) if rng.random() < 0.5 else 0.0
+                hi = round(2 * math.pi, 6) if rng.random() < 0.4 else r(1.5, 5.5, 2)
+            if angpi:
+                lo = r(0.2, 0.6, 2)
+                hi = r(1.2, 2.8, 2)
+            w = [rng.uniform(0.5, 1.5) for _ in range(n)]
+            if rng.random() < 0.3 and n > 1:
+                w[-1] = w[0]            # equal end cells on a non-uniform axis
+            tot = sum(w)
+            acc = lo
+            f = [lo]
+            for x in w:
+                acc += (hi - lo) * x / tot
+                f.append(round(acc, 6))
+            faces.append(f)
+        a.update({"form": "faces", "faces": faces})
+    else:
+        L = []
+        for ax in range(nd):
+            ang2pi = (cls in ("PolarGrid2D", "CylindricalGrid3D") and ax == 1) or \
+                     (cls == "SphericalGrid3D" and ax == 2)
+            angpi = cls == "SphericalGrid3D" and ax == 1
+            if ang2pi:
+                L.append(round(2 * math.pi, 6) if rng.random() < 0.5 else r(1.0, 5.0, 2))
+            elif angpi:
+                L.append(r(1.0, 3.0, 2))
+            else:
+                L.append(r(0.8, 3.0, 2))
+        a.update({"form": "NL", "N": N, "L": L})
+    return {"k": "mesh", "out": out, "a": a}
+
+
 class Gen:
     def __init__(self, world, rng, prop, sw):
         self.w = world
@@ -141,55 +196,8 @@ class Gen:
 
     # ---------------------------------------------------------------- setup
     def mesh_op(self, cls):
-        rng = self.rng
-        nd = A.GRID_NDIM[cls]
-        mx = self.sw["maxcells"]
-        N = [rng.randint(1 if rng.random() < 0.1 else 2, mx) for _ in range(nd)]
-        if nd == 3:
-            N = [min(n, 3) for n in N]
-        a = {"cls": cls}
-        radial = cls in A.RADIAL
-        if self.sw["nonuniform"] and rng.random() < 0.7:
-            faces = []
-            for ax, n in enumerate(N):
-                lo = 0.0
-                hi = self.r(0.8, 2.5, 2)
-                ang2pi = (cls in ("PolarGrid2D", "CylindricalGrid3D") and ax == 1) or \
-                         (cls == "SphericalGrid3D" and ax == 2)
-                angpi = cls == "SphericalGrid3D" and ax == 1
-                if ax == 0 and radial and rng.random() < 0.5:
-                    lo = self.r(0.2, 1.0, 2)          # offset radial origin
-                if ang2pi:
-                    lo = self.r(0.0, 1.0, 2) if rng.random() < 0.5 else 0.0
-                    hi = round(2 * math.pi, 6) if rng.random() < 0.4 else self.r(1.5, 5.5, 2)
-                if angpi:
-                    lo = self.r(0.2, 0.6, 2)
-                    hi = self.r(1.2, 2.8, 2)
-                w = [rng.uniform(0.5, 1.5) for _ in range(n)]
-                if rng.random() < 0.3 and n > 1:
-                    w[-1] = w[0]            # equal end cells on a non-uniform axis
-                tot = sum(w)
-                acc = lo
-                f = [lo]
-                for x in w:
-                    acc += (hi - lo) * x / tot
-                    f.append(round(acc, 6))
-                faces.append(f)
-            a.update({"form": "faces", "faces": faces})
-        else:
-            L = []
-            for ax in range(nd):
-                ang2pi = (cls in ("PolarGrid2D", "CylindricalGrid3D") and ax == 1) or \
-                         (cls == "SphericalGrid3D" and ax == 2)
-                angpi = cls == "SphericalGrid3D" and ax == 1
-                if ang2pi:
-                    L.append(round(2 * math.pi, 6) if rng.random() < 0.5 else self.r(1.0, 5.0, 2))
-                elif angpi:
-                    L.append(self.r(1.0, 3.0, 2))
-                else:
-                    L.append(self.r(0.8, 3.0, 2))
-            a.update({"form": "NL", "N": N, "L": L})
-        return {"k": "mesh", "out": self.fresh("m"), "a": a}
+        return make_mesh_op(self.rng, cls, self.sw["maxcells"], self.sw["nonuniform"],
+                            self.fresh("m"))
 
     def _setup(self):
         rng = self.rng
@@ -634,6 +642,14 @@ class Editor(Task):
                 else {"d": "rand", "lo": 0.3, "hi": 3.0, "s": g.seed()}
             return {"k": "bc_scale", "a": {"b": b, "side": side, "k": kd,
                                            "neg": rng.random() < 0.4}}
+        if rng.random() < (0.06 if g.prop in ("C03", "C09") else 0.03):
+            # a change the tracking cannot see, with one of the documented remedies
+            coef = rng.choice(("a", "b", "c", "c"))
+            return {"k": "bc_untracked",
+                    "a": {"b": b, "side": side, "coef": coef,
+                          "how": rng.choice(("fill", "copyto", "ufunc_out", "put")),
+                          "remedy": rng.choice(("apply", "apply", "flag")),
+                          "val": Editor.coef_val(g, side, coef)}}
         st = g.w.ents[b].meta.get("state", {}).get(side)
         if st is not None and rng.random() < 0.06:
             # pure Dirichlet / pure Neumann written with a coefficient other than 1
